@@ -1,8 +1,10 @@
 //! verif-harness: drives the real rs-matter code for the model-based checks in /verif.
 mod c04;
+mod c05;
 mod c12;
 mod c13;
 mod c18;
+mod c19;
 mod sim;
 mod util;
 
@@ -16,9 +18,11 @@ fn main() {
         .stack_size(1 << 30)
         .spawn(move || match cmdc.as_str() {
             "c04" => c04::run(&a[2..]),
+            "c05" => c05::run(&a[2..]),
             "c12" => c12::run(&a[2..]),
             "c13" => c13::run(&a[2..]),
             "c18" => c18::run(&a[2..]),
+            "c19" => c19::run(&a[2..]),
             _ => {
                 eprintln!("usage: vh <c04|...> [--behaviours f] [--out f]");
                 2
